@@ -57,7 +57,21 @@ func VerifH_http_send() {
 		hb.vals["content_type"] = protoreflect.ValueOfString(ct)
 		hb.vals["data"] = protoreflect.ValueOfBytes(data)
 		s.method = &method{desc: &fakeMethod{full: "vf.S.Dl", in: out, out: hb.md}, name: "/vf.S/Dl"}
+		// C18: with a stats handler, a sent HttpBody reply is one out-payload event like any other reply
+		var st *fakeStats
+		if vfBool() {
+			st = &fakeStats{}
+			s.opts.statsHandler = st
+		}
 		err := s.SendMsg(hb)
+		if st != nil {
+			if err == nil {
+				vfCheck(len(st.outLen) == 1, "no out-payload stats event for an HttpBody reply that was sent")
+				vfCover("httpbody-stats")
+			} else {
+				vfCheck(len(st.outLen) == 0, "out-payload stats event for an HttpBody reply that was refused")
+			}
+		}
 		if len(data) <= sendLimit {
 			vfCheck(err == nil, "HttpBody reply within the send limit was refused")
 			vfCheck(vfBytesEq(w.buf, data), "HttpBody reply body differs from its data bytes")
